@@ -16,7 +16,8 @@ identity fields (`SenderId`, `ReceiverId`, `Token`) blanked.  `holds` says:
   the target client of a mapping the sender listens on (tunnel open), or carrying the sender's true id
   (notification), or as a DNS forward;
 * no other connection is closed;
-* on a connection without an authenticated identity nothing is disclosed, changed or pushed, and a
+* on a connection without an authenticated identity nothing is disclosed or changed, nothing is pushed to any
+  other connection, and a
   command whose rule needs authentication is not answered with success.
 -/
 namespace Tunnox.C11
@@ -59,7 +60,7 @@ def holdsRun (w : World) (f : Nat) (c : Cmd) (needsAuth : Bool) (r : Run) : Bool
   r.dlv.all (dlvAllowed w (ident w f) f) &&
   r.gone.all (· == f) &&
   (ident w f != 0 ||
-    (r.view.isEmpty && r.chg.isEmpty && r.dlv.isEmpty && (!needsAuth || r.rsp != .ok)))
+    (r.view.isEmpty && r.chg.isEmpty && r.dlv.all (·.conn == f) && (!needsAuth || r.rsp != .ok)))
 
 /-- the property on an observation: `a` = run of the packet as sent, `b` = run with blanked claimed fields -/
 def holds (w : World) (f : Nat) (c : Cmd) (a b : Run) : Bool :=
